@@ -523,6 +523,9 @@ def _oracle_half(prop, c, o, half):
                     fail('valid-batch-refused', 'a complete duplicate-free response array was refused')
                     return f
                 got = final['resp']['batch']['responses']
+                if len(got) != len(doc):
+                    fail('responses-dropped', f'the accepted batch response holds {len(got)} of the {len(doc)} elements the server sent '
+                                              f'(an element without an id - a server error nobody can attribute - must not vanish)')
                 # positional attribution: results in the order the calls were made, whatever the server's order
                 by_id = {json.dumps(enc(x['id'])): x for x in doc if x.get('id') is not None}
                 want_ids = [enc(i) for i in calls]
